@@ -138,6 +138,26 @@ def apply(it, fn, args, dest_ty, term, caller, depth, M):
     if name in ("le", "lt", "ge", "gt") and tr.endswith("PartialOrd") and (fn.get("targs") or [""])[0].startswith("log::Level"):
         return mkbool(name in ("le", "lt"))
 
+    # ------------------------------------------------------------------ checked integer conversions: T::try_from(x) / x.try_into()
+    if name in ("try_from", "try_into") and ("convert::TryFrom" in tr or "convert::TryInto" in tr) and len(args) == 1 and isinstance(args[0], Int):
+        WID = {"u8": (8, False), "u16": (16, False), "u32": (32, False), "u64": (64, False), "usize": (64, False), "u128": (128, False),
+               "i8": (8, True), "i16": (16, True), "i32": (32, True), "i64": (64, True), "isize": (64, True), "i128": (128, True)}
+        ta = fn.get("targs") or []
+        dst = ta[0] if name == "try_from" and ta else (ta[1] if len(ta) > 1 else None)
+        if dst in WID:
+            w_, sg_ = WID[dst]
+            x = args[0]
+            lo_, hi_ = (-(1 << (w_ - 1)), (1 << (w_ - 1)) - 1) if sg_ else (0, (1 << w_) - 1)
+            rlo, rhi = x.rng() if hasattr(x, "rng") else (None, None)
+            if x.is_conc():
+                v_ = x.sval() if x.signed else x.val
+                rlo = rhi = v_
+            if rlo is not None and rhi is not None and lo_ <= rlo and rhi <= hi_:
+                return Adt("std::result::Result", 0, [bv.cast(x, w_, sg_) if hasattr(bv, "cast") else Int(w_, sg_, val=(x.val & ((1 << w_) - 1)))])
+            if rlo is not None and rhi is not None and (rhi < lo_ or rlo > hi_):
+                return Adt("std::result::Result", 1, [Adt("std::num::TryFromIntError", 0, [Tup([])])])
+            raise Undecided("%s of %r into %s: whether it fits is not determined" % (name, x, dst))
+
     # ------------------------------------------------------------------ vec![a, b, c]: Box::new_uninit + in-place write + box_assume_init_into_vec_unsafe
     if name == "new_uninit" and path.startswith("alloc::boxed::Box") or (name == "new_uninit" and "boxed::Box" in path):
         skeleton = Adt("std::mem::MaybeUninit", 0, [Tup([]), Adt("std::mem::ManuallyDrop", 0, [Adt("std::mem::MaybeDangling", 0, [Opaque("uninit", {"uninit"})])])])
